@@ -559,7 +559,8 @@ MANIFEST = dict(
           'job exactly one atomic job-complete notification (monitor on the job lock), the job is skipped iff an exception is '
           'recorded, finalisation runs exactly when the remaining count is 0: temp removed on failure, renamed on success, a '
           'failing rename recorded and the temp removed, notify_done last; shutdown joins the submitter before signalling the '
-          'workers; Ctrl-C in the with-block cancels all unfinished downloads before shutting down.'),
+          'workers; Ctrl-C in the with-block cancels all unfinished downloads before shutting down.'
+          ' Also: ProcessPoolDownloader starts and shuts down at most once (monitor on _start_lock: the decision is taken on the value read under the lock), download_file registers the transfer before queueing exactly one request with the id the returned future polls; TransferMonitor methods (fresh ids under _init_lock, poll waits then raises the recorded error, cancel-all only the unfinished), verified for representative ids.'),
     note=('multiprocessing queues and manager proxies are assumed FIFO/reliable; interleavings of submitter, workers and a '
           'cancelling user across processes are not enumerated (the exception slot is written without a lock: last writer '
           'wins, which satisfies "one of the failures"); a submitter fault after allocation other than those in the '
